@@ -309,6 +309,48 @@ def materialiseE (ev : Env → ε → JVal) (env : Env) (template forced : Field
   if steps.isEmpty then some t
   else (overlaysLoopE ev env steps t).map (fun r => deepOverlay r forced)
 
+/-! ### order inside one step, and availability of the listed overlays -/
+
+/-- does the `inputs` mapping of a function overlay evaluate?  (`ok` is the second face of the oracle:
+    whether `evaluate` succeeds; inline overlays have no `inputs`) -/
+def inputsOk (ok : Env → ε → Bool) (env : Env) : Step ε → Bool
+  | .vfRef _ (some e) _ => ok env e
+  | _ => true
+
+/-- the loop of `_materialize_from_overlays` with both PermFail exits, **in the order of the code**:
+    first the `skipIf` (undecidable ⇒ PermFail; `true` ⇒ `continue`, nothing else of the step is
+    looked at), only then the function overlay's `inputs` (failing ⇒ that outcome, no target) -/
+def overlaysLoopF (ev : Env → ε → JVal) (ok : Env → ε → Bool) (env : Env) :
+    List (Step ε) → Fields → Option Fields
+  | [], cur => some cur
+  | s :: rest, cur =>
+    match skipDecision ev env s with
+    | none => none
+    | some true => overlaysLoopF ev ok env rest cur
+    | some false =>
+      if inputsOk ok env s then overlaysLoopF ev ok env rest (stepApply ev env cur s) else none
+
+def materialiseF (ev : Env → ε → JVal) (ok : Env → ε → Bool) (env : Env) (template forced : Fields)
+    (steps : List (Step ε)) : Option Fields :=
+  let t := deepOverlay template forced
+  if steps.isEmpty then some t
+  else (overlaysLoopF ev ok env steps t).map (fun r => deepOverlay r forced)
+
+/-- `unwrapped_combine` over the prepared overlay list: one listed overlay that could not be prepared
+    (`overlayRef` to a ValueFunction that is not cached / not healthy ⇒ `Retry`) makes the whole list
+    that outcome — there is no list with a hole in it -/
+def allAvailable {α : Type} : List (Option α) → Option (List α)
+  | [] => some []
+  | none :: _ => none
+  | some a :: rest => (allAvailable rest).map (a :: ·)
+
+/-- prepare + reconcile: `if not is_unwrapped_ok(crud_config.overlays): return` — no target -/
+def materialiseP (ev : Env → ε → JVal) (ok : Env → ε → Bool) (env : Env) (template forced : Fields)
+    (listed : List (Option (Step ε))) : Option Fields :=
+  match allAvailable listed with
+  | none => none
+  | some steps => materialiseF ev ok env template forced steps
+
 /-- `_create_api_resource` up to the second forced overlay: the optional `create.overlay` over the
     target, then the forced overlay (owner references / directive stripping / annotation: C08) -/
 def createView (ev : Env → ε → JVal) (env : Env) (target forced : Fields)
@@ -354,6 +396,42 @@ def evalExpr (env : Env) (e : String) : JVal :=
        | .obj a, .obj b => .obj (dovO a b)
        | _, _ => .null)
     | _ => path e
+
+def lookupPath? : JVal → List String → Option JVal
+  | v, [] => some v
+  | .obj kvs, k :: rest => (JVal.lookup k kvs).bind (fun v => lookupPath? v rest)
+  | _, _ :: _ => none
+
+/-- does one expression of the generators' language evaluate (every path resolves, operands have
+    the right shape)? -/
+def exprOk (env : Env) (e : String) : Bool :=
+  let path (p : String) : Option JVal := lookupPath? (.obj env) (p.splitOn ".")
+  if e.endsWith ".flatten()" then
+    match path (e.dropEnd 10).toString with
+    | some (.arr _) => true
+    | _ => false
+  else
+    match e.splitOn ".overlay(" with
+    | [l, r] =>
+      (match path l, path (r.dropEnd 1).toString with
+       | some (.obj _), some (.obj _) => true
+       | _, _ => false)
+    | _ => (path e).isSome
+
+mutual
+/-- the `ok` face of the driver's oracle: a written value evaluates iff all its expressions do -/
+def okWritten (env : Env) : JVal → Bool
+  | .str s => if s.startsWith "=" then exprOk env (s.dropWhile (· == '=')).toString else true
+  | .arr xs => okWrittenL env xs
+  | .obj kvs => okWrittenO env kvs
+  | _ => true
+def okWrittenL (env : Env) : List JVal → Bool
+  | [] => true
+  | x :: xs => okWritten env x && okWrittenL env xs
+def okWrittenO (env : Env) : Fields → Bool
+  | [] => true
+  | (_, v) :: rest => okWritten env v && okWrittenO env rest
+end
 
 mutual
 /-- a written value: `"=<expr>"` is an expression over the activation; lists and maps are
